@@ -356,6 +356,28 @@ func runC11(c *Ctx) {
 				}
 				c.check(same && codeIsParam, "R11.3", construct, c.ipos(byType), "byType[t]=c and byCode[c]=t with the same t and the code argument", "the two directions of the registry are not updated with the same (type, code) pair")
 			}
+			// registration only ever adds: removing "stale" entries un-registers the earlier code of a type
+			// that is accepted under two codes (an old and a renumbered one), so errors the peer still sends
+			// with the old code arrive as the generic error
+			for _, fn := range p.Funcs {
+				if pkgOf(fn) != p.Root.Pkg {
+					continue
+				}
+				allInstrs(fn, func(in ssa.Instruction) {
+					ci, ok := isBuiltinCall(in, "delete")
+					if !ok {
+						return
+					}
+					mt, ok := ci.Call.Args[0].Type().Underlying().(*types.Map)
+					if !ok || !(isNamed(mt.Key(), "reflect", "Type") || isNamed(mt.Elem(), "reflect", "Type")) {
+						return
+					}
+					if _, isCode := mt.Key().Underlying().(*types.Basic); !isCode && !isNamed(mt.Key(), "reflect", "Type") {
+						return
+					}
+					c.bad("R11.3", fmt.Sprintf("%s: entry removed from the error registry", fname(fn)), c.ipos(in), "an entry is deleted from the error registry: a type registered under a second code loses its first one (or a code its type), so an error the peer sends under the still-agreed pair arrives as the generic error instead of the registered type")
+				})
+			}
 		}
 	}
 
